@@ -97,9 +97,11 @@ impl Personality for BlkDev {
                     data.resize(in_len, 0);
                     written = ctx.write_out(chain, &data);
                 } else {
-                    // on error the data area is undefined: leave garbage
-                    let junk = vec![0xBDu8; in_len];
-                    written = ctx.write_out(chain, &junk);
+                    // on error the data area is undefined: leave garbage, or nothing at all
+                    if ctx.tape.choose(2) == 0 {
+                        let junk = vec![0xBDu8; in_len];
+                        written = ctx.write_out(chain, &junk);
+                    }
                 }
             }
             T_OUT => {
@@ -146,7 +148,13 @@ impl Personality for BlkDev {
         }
         // status is the last writable byte
         ctx.write_out_at(chain, wl - 1, &[status]);
-        let used = (written.max(in_len) + 1) as u32;
+        let mut used = (written.max(in_len) + 1) as u32;
+        if self.faulty && status != 0 && written == 0 && ctx.tape.choose(2) == 1 {
+            // a device that failed the request and wrote nothing but the status byte may count
+            // just that byte (the status still decides the outcome)
+            used = 1;
+            ctx.fault("error_status_short_used_len");
+        }
         if self.log.len() < 4096 {
             self.log.push_back(Seen { head: chain.head, type_, sector, data_len: if type_ == T_OUT { out_data.len() } else { in_len }, status, used_len: used });
         }
